@@ -306,6 +306,9 @@ func eqv(a, b reflect.Value, path string) (bool, string) {
 		if a.Len() != b.Len() {
 			return false, fmt.Sprintf("%s: len %d vs %d", path, a.Len(), b.Len())
 		}
+		if t.Elem().Size() == 0 {
+			return true, "" // elements of size zero carry no content (and their number is not bounded by memory)
+		}
 		if t.Elem().Kind() == reflect.Uint8 && a.Kind() == reflect.Slice {
 			if string(a.Bytes()) != string(b.Bytes()) {
 				return false, path + ": bytes differ"
